@@ -66,7 +66,7 @@ def detector_spaces(tier: str, chains: bool = True) -> Iterator[Tuple[str, str, 
         ["txn GroupIndex", "int 0", "=="],
         ["gtxn 0 Fee", "int 1000", "<="],
     ]
-    yield from emit("missing-fee-check", "direct", spaces.layered(full[::2] if q else full, small, tier, chains=chains, l2_top_alpha=top, l2_size=2 if q else None))
+    yield from emit("missing-fee-check", "direct", spaces.layered(full[::2] if q else full, small, tier, chains=chains, l2_top_alpha=top, l2_size=2 if q else 3))
     # is-updatable / is-deletable
     full = A.kind_atoms("small" if q else "full") + A.cross_block(["txn OnCompletion", "int UpdateApplication", "!="]) + A.cross_block(
         ["txn OnCompletion", "int UpdateApplication", "=="])
@@ -77,7 +77,7 @@ def detector_spaces(tier: str, chains: bool = True) -> Iterator[Tuple[str, str, 
         ["int DeleteApplication", "txn OnCompletion", "=="],
         ["txn TypeEnum", "int pay", "!="],
     ]
-    yield from emit("is-updatable", "direct", spaces.layered(full[::2] if q else full, small, tier, chains=chains, l2_top_alpha=top, l2_size=2 if q else None))
+    yield from emit("is-updatable", "direct", spaces.layered(full[::2] if q else full, small, tier, chains=chains, l2_top_alpha=top, l2_size=2 if q else 3))
     # unprotected-updatable / -deletable
     small = [
         ["txn OnCompletion", "int UpdateApplication", "!="],
@@ -107,7 +107,8 @@ def detector_spaces(tier: str, chains: bool = True) -> Iterator[Tuple[str, str, 
         ["global GroupSize", "int 16", "!="],
     ]
     full = A.size_atoms((0, 2, 16, 17) if q else (0, 1, 2, 3, 16, 17))
-    yield from emit("group-size-check", "direct", spaces.layered(full, small, tier, chains=chains, kinds=kinds, pad=("gtxn 1 Fee", "pop"), l3=not q, l2_top_alpha=1 if q else None))
+    yield from emit("group-size-check", "direct", spaces.layered(full, small, tier, chains=chains, kinds=kinds, pad=("gtxn 1 Fee", "pop"), l3=not q, l2_top_alpha=1 if q else None,
+                                                                 l2_size=None if q else 3))
     yield from emit(
         "group-size-check", "direct",
         spaces.layered(full[:8], small[:2], tier, chains=False, kinds=kinds, pad=("int 0", "gtxns Fee", "pop"), l2_size=2, l3=False, max_subs=1),
